@@ -52,6 +52,7 @@ type loopInfo struct {
 
 
 type FnCtx struct {
+	allocByPosType map[string]*ssa.Alloc
 	aliasCells map[*ssa.Alloc]ssa.Value // local pointer variables that are aliases of an element address (nil: not an alias)
 	lateDefers []*ssa.Defer // defers registered outside the entry block (run at the exits their block dominates)
 	sentinels  []Term
@@ -610,7 +611,7 @@ func newFnCtx(P *Prog, fn *ssa.Function, fc *FuncContract) *FnCtx {
 	fx := &FnCtx{P: P, fn: fn, fc: fc, key: fn.Pkg.Pkg.Name() + "." + fnKey(fn), declared: map[string]string{}, vals: map[ssa.Value]Term{},
 		tuples: map[ssa.Value][]Term{}, reach: map[*ssa.BasicBlock]Term{}, outSt: map[*ssa.BasicBlock]*State{}, edgeCond: map[[2]int]Term{},
 		compSort: map[string]string{}, written: map[string]bool{}, counter: map[string]int{}, closures: map[ssa.Value]*ssa.MakeClosure{},
-		aliasCells: map[*ssa.Alloc]ssa.Value{}, allocByPos: map[token.Pos]*ssa.Alloc{}, notes: map[string]bool{}, paramTerm: map[string]Val{}, callCount: map[string]int{}, callees: map[string]bool{}, cellOnly: map[string][]*ssa.FreeVar{}, ghosts: map[string]Val{}, havocNext: map[string]Term{}, usedFC: map[*FuncContract]bool{}}
+		aliasCells: map[*ssa.Alloc]ssa.Value{}, allocByPosType: map[string]*ssa.Alloc{}, allocByPos: map[token.Pos]*ssa.Alloc{}, notes: map[string]bool{}, paramTerm: map[string]Val{}, callCount: map[string]int{}, callees: map[string]bool{}, cellOnly: map[string][]*ssa.FreeVar{}, ghosts: map[string]Val{}, havocNext: map[string]Term{}, usedFC: map[*FuncContract]bool{}}
 	fx.mode = "int"
 	if fc.Mode != "" {
 		fx.mode = fc.Mode
@@ -672,6 +673,8 @@ func (fx *FnCtx) generate() {
 		for _, in := range b.Instrs {
 			if a, ok := in.(*ssa.Alloc); ok && a.Pos().IsValid() {
 				fx.allocByPos[a.Pos()] = a
+				// the variables of a type switch's clauses share one position: keep them apart by type
+				fx.allocByPosType[fmt.Sprintf("%d|%s", a.Pos(), deref(a.Type()).String())] = a
 			}
 			if d, ok := in.(*ssa.Defer); ok {
 				if b.Index != 0 {
@@ -770,6 +773,9 @@ func (fx *FnCtx) generate() {
 			continue
 		}
 		fx.assumeDef(t)
+		if c.Assumed != "" {
+			fx.notes[fmt.Sprintf("ASSUMED on entry to %s, not checked at its call sites: %s (%s)", fx.key, c.Text, c.Assumed)] = true
+		}
 	}
 	// hints: terms over entry values that the solver should see (seeds for E-matching); an uninterpreted
 	// predicate applied to the term is assumed, which constrains nothing
@@ -1400,10 +1406,18 @@ func (fx *FnCtx) lookupName(env *Env, name string) (Val, bool, error) {
 }
 
 func (fx *FnCtx) varVal(env *Env, v *types.Var) (Val, bool, error) {
-	if a, ok := fx.allocByPos[v.Pos()]; ok {
+	a, ok := fx.allocByPosType[fmt.Sprintf("%d|%s", v.Pos(), v.Type().String())]
+	if !ok {
+		a, ok = fx.allocByPos[v.Pos()]
+	}
+	if ok {
 		t := deref(a.Type())
 		if !a.Heap {
 			cur, ok := env.st.locals[a]
+			if !ok && env.localsSt != nil {
+				// old(e) mentioning a local: the entry state has no such variable, its current value is meant
+				cur, ok = env.localsSt.locals[a]
+			}
 			if !ok {
 				cur = fx.P.sorts.zero(t)
 			}
@@ -1411,6 +1425,15 @@ func (fx *FnCtx) varVal(env *Env, v *types.Var) (Val, bool, error) {
 		}
 		ref, ok := fx.vals[a]
 		if !ok {
+			// a parameter that lives in a heap cell (captured by a closure), named before the cell exists
+			// (preconditions, entry hints): its value is the parameter itself
+			for _, p := range fx.fn.Params {
+				if p.Pos() == v.Pos() {
+					if pv, ok := fx.vals[p]; ok {
+						return Val{T: pv, GoT: p.Type()}, true, nil
+					}
+				}
+			}
 			return Val{}, false, fmt.Errorf("captured variable %s used before its allocation", v.Name())
 		}
 		return Val{T: env.st.read(fx.P, &Loc{kind: locPtr, base: ref, rootT: t}), GoT: t}, true, nil
